@@ -207,7 +207,7 @@ Proof. reflexivity. Qed.
 
 Lemma WB_exec_op : forall o, WB (exec_op shipped o).
 Proof.
-  destruct o; simpl; try rewrite do_transfer_unfold; unfold do_put, do_ingest, do_purge, do_unstore, butler_txn;
+  destruct o; simpl; try rewrite do_transfer_unfold; unfold do_put, do_ingest, do_purge, do_unstore, do_import, butler_txn;
     repeat first
     [ apply WB_do_trash | apply WB_do_empty_trash | apply WB_xfer_ds
     | apply WB_bind | apply WB_ev | apply WB_ev_absorb | apply WB_ret | apply WB_raise | apply WB_guard | apply WB_swallow
@@ -291,6 +291,14 @@ Proof.
   intros d s s' h H C. simpl in H. rewrite do_transfer_unfold in H. eapply butler_txn_atomic; eauto.
   repeat first [ apply WB_bind | apply WB_ev | apply WB_ret | apply WB_guard | apply WB_with_ds | apply WB_xfer_ds
                | (apply WB_upd; keeps) ].
+Qed.
+
+Lemma import_registry_atomic_p : forall d s s' h,
+  exec_op shipped (ImportDs d) s = (s', Raised h) -> (cfault s' = false \/ sql s = []) -> cur s' = cur s.
+Proof.
+  intros d s s' h H C. simpl in H. unfold do_import in H. eapply butler_txn_atomic; eauto.
+  repeat first [ apply WB_bind | apply WB_ev | apply WB_ret | apply WB_guard | apply WB_with_ds | apply WB_reg_undo
+               | apply WB_stored_rows | (apply WB_upd; keeps) ].
 Qed.
 
 (* the stacks after ANY program, outcome and fault: SQL blocks all closed again, datastore pointer back where it was *)
